@@ -12,9 +12,9 @@ import (
 )
 
 type c10Item struct {
-	Kind  string    `json:"kind"` // text super block if for
+	Kind  string    `json:"kind"` // text super block if for lv
 	Text  string    `json:"text,omitempty"`
-	Name  string    `json:"name,omitempty"`  // block name
+	Name  string    `json:"name,omitempty"`  // block name; for: loop variable ("" = li); lv: the loop variable printed
 	Body  []c10Item `json:"body,omitempty"`  // block / if / for body
 	Cond  bool      `json:"cond,omitempty"`  // if: condition value
 	Times int       `json:"times,omitempty"` // for: iterations
@@ -26,8 +26,31 @@ type c10Tpl struct {
 	Top  []c10Item `json:"top"`
 }
 
+type c10Step struct {
+	Level int    `json:"level"`
+	Via   string `json:"via"` // FromFile | FromCache
+}
+
 type c10Case struct {
 	Chain []c10Tpl `json:"chain"` // Chain[0] is the base
+	// further renders on a second, fresh set: any level in any order, fetched with or without the cache
+	Steps []c10Step `json:"steps,omitempty"`
+}
+
+func c10LoopVar(it c10Item) string {
+	if it.Name == "" {
+		return "li"
+	}
+	return it.Name
+}
+
+// the string a for item iterates over: distinct neighbours, so that the iteration shows in {{ var }}
+func c10LoopString(times int) string {
+	var sb strings.Builder
+	for k := 0; k < times; k++ {
+		sb.WriteByte("abcdefghij"[k%10])
+	}
+	return sb.String()
 }
 
 func c10Src(items []c10Item) string {
@@ -47,7 +70,9 @@ func c10Src(items []c10Item) string {
 			}
 			sb.WriteString("{% if " + c + " %}" + c10Src(it.Body) + "{% endif %}")
 		case "for":
-			sb.WriteString(`{% for li in "` + strings.Repeat("x", it.Times) + `" %}` + c10Src(it.Body) + "{% endfor %}")
+			sb.WriteString(`{% for ` + c10LoopVar(it) + ` in "` + c10LoopString(it.Times) + `" %}` + c10Src(it.Body) + "{% endfor %}")
+		case "lv":
+			sb.WriteString("{{ " + it.Name + " }}")
 		}
 	}
 	return sb.String()
@@ -83,6 +108,7 @@ func c10Ref(chain []c10Tpl, j int) string {
 		return ls
 	}
 	var sb strings.Builder
+	env := map[string]string{} // loop variables of the loops being executed right now
 	var render func(items []c10Item, name string, pos int)
 	renderBlock := func(name string) {
 		ls := levelsOf(name)
@@ -106,9 +132,15 @@ func c10Ref(chain []c10Tpl, j int) string {
 					render(it.Body, name, pos)
 				}
 			case "for":
+				v := c10LoopVar(it)
+				str := c10LoopString(it.Times)
 				for k := 0; k < it.Times; k++ {
+					env[v] = str[k : k+1]
 					render(it.Body, name, pos)
 				}
+				delete(env, v)
+			case "lv":
+				sb.WriteString(env[it.Name])
 			}
 		}
 	}
@@ -161,6 +193,29 @@ func checkC10(c any, r *Rec) error {
 	out1, err := base.Execute(nil)
 	if err != nil || out1 != baseWant {
 		return fmt.Errorf("base rendered again after its children were compiled: got %q err=%v, want %q\n %s", out1, err, baseWant, desc)
+	}
+	// any level, any order, with and without the cache, on a set that has seen nothing yet
+	if len(cs.Steps) > 0 {
+		set2 := pongo2.NewSet("c10b", newMemLoader(files))
+		for i, sp := range cs.Steps {
+			lv := sp.Level % len(cs.Chain)
+			var tpl *pongo2.Template
+			var err error
+			if sp.Via == "FromCache" {
+				tpl, err = set2.FromCache(cs.Chain[lv].File)
+			} else {
+				tpl, err = set2.FromFile(cs.Chain[lv].File)
+			}
+			if err != nil {
+				return fmt.Errorf("step %d: %s(level %d) fails: %v\n steps=%+v\n %s", i, sp.Via, lv, err, cs.Steps, desc)
+			}
+			want := c10Ref(cs.Chain, lv)
+			out, err := tpl.Execute(nil)
+			if err != nil || out != want {
+				return fmt.Errorf("step %d: level %d (%s) fetched with %s renders %q err=%v, want %q (a level renders the same whatever was fetched or rendered before)\n steps=%+v\n %s", i, lv, cs.Chain[lv].File, sp.Via, out, err, want, cs.Steps, desc)
+			}
+		}
+		r.Class("with-steps")
 	}
 	// non-trivial classification
 	st := c10Stats{}
@@ -220,13 +275,20 @@ type c10Gen struct {
 	fresh    int
 	used     map[string]bool // names used in the template being generated
 	bigLoops int
+	loops    []string // loop variables of the lexically enclosing for items (same template)
+	nloops   int
 }
 
 func (g *c10Gen) body(lvl, depth int, inBlock bool) []c10Item {
 	n := drawInt(g.t, 0, 4, "bodylen")
 	var out []c10Item
 	for i := 0; i < n; i++ {
-		switch pickW(g.t, "item", []string{"text", "super", "block", "if", "for"}, []int{4, 3, 4, 1, 1}) {
+		switch pickW(g.t, "item", []string{"text", "super", "block", "if", "for", "lv"}, []int{4, 3, 4, 1, 2, 3}) {
+		case "lv":
+			// prints the current element of a lexically enclosing loop of this template
+			if len(g.loops) > 0 {
+				out = append(out, c10Item{Kind: "lv", Name: pick(g.t, "lvname", g.loops)})
+			}
 		case "text":
 			out = append(out, c10Item{Kind: "text", Text: fmt.Sprintf("t%d%c", lvl, 'a'+rune(drawInt(g.t, 0, 5, "tn")))})
 		case "super":
@@ -262,7 +324,12 @@ func (g *c10Gen) body(lvl, depth int, inBlock bool) []c10Item {
 					times = 1100
 					g.bigLoops++
 				}
-				out = append(out, c10Item{Kind: "for", Times: times, Body: g.body(lvl, depth-1, inBlock)})
+				g.nloops++
+				v := fmt.Sprintf("v%d_%d", lvl, g.nloops)
+				g.loops = append(g.loops, v)
+				body := g.body(lvl, depth-1, inBlock)
+				g.loops = g.loops[:len(g.loops)-1]
+				out = append(out, c10Item{Kind: "for", Name: v, Times: times, Body: body})
 			}
 		}
 	}
@@ -283,6 +350,7 @@ func genC10(t *rapid.T) *c10Case {
 	prevFile := ""
 	for lvl := 0; lvl < n; lvl++ {
 		g.used = map[string]bool{}
+		g.loops = nil
 		tp := c10Tpl{File: dirs[lvl] + fmt.Sprintf("l%d.tpl", lvl)}
 		if sameBase {
 			tp.File = dirs[lvl] + "t.tpl"
@@ -310,6 +378,10 @@ func genC10(t *rapid.T) *c10Case {
 		sortStringsInPlace(g.known)
 		cs.Chain = append(cs.Chain, tp)
 		prevFile = tp.File
+	}
+	ns := drawInt(t, 0, 6, "nsteps")
+	for i := 0; i < ns; i++ {
+		cs.Steps = append(cs.Steps, c10Step{Level: drawInt(t, 0, n-1, "steplevel"), Via: pick(t, "via", []string{"FromCache", "FromCache", "FromFile"})})
 	}
 	return cs
 }
@@ -343,7 +415,7 @@ func relPath(from, to string) string {
 
 var _ = register(&propSpec{
 	ID:    "C10.chain",
-	Rule:  "inheritance chains base <- l1 <- ... (1-5 levels, files in different directories, parents named rooted or relatively with ..) in an in-memory loader; per level random block sets: override (with 0-n block.Super, also twice, inside loops, before and after nested blocks), inherit, add new blocks, nest fresh blocks inside overrides, text outside blocks; base blocks nested in blocks, in if-branches (true/false) and in for-loops. Every level is rendered (twice) and compared with a reference resolution; the base is rendered before and after its children. Nested blocks inside overrides carry fresh names (blocks containing each other have no defined rendering). Non-trivial: >= 2 levels with an override and (Super or nested block or a skipped level); distinct by sources.",
+	Rule:  "inheritance chains base <- l1 <- ... (1-5 levels, files in different directories, parents named rooted or relatively with ..) in an in-memory loader; per level random block sets: override (with 0-n block.Super, also twice, inside loops, before and after nested blocks), inherit, add new blocks, nest fresh blocks inside overrides, text outside blocks; base blocks nested in blocks, in if-branches (true/false) and in for-loops. Every level is rendered (twice) and compared with a reference resolution; the base is rendered before and after its children; then 0-6 further renders of any level in any order on a fresh set, fetched with FromCache or FromFile. Loops iterate over distinct letters and definitions print the current element of a loop that encloses them in their own template (so a definition rendered through Super must show the current iteration). Nested blocks inside overrides carry fresh names (blocks containing each other have no defined rendering). Non-trivial: >= 2 levels with an override and (Super or nested block or a skipped level); distinct by sources.",
 	Gen:   func(t *rapid.T) any { return genC10(t) },
 	New:   func() any { return &c10Case{} },
 	Check: checkC10,
